@@ -35,6 +35,7 @@ type scenario struct {
 	Workers  int  // >1: API calls issued concurrently
 	Resume   bool // afterwards reconnect with the same session (clean=false) and finish
 	SlowLog  bool // the application's Logger takes a moment on every "Sent:" line
+	LossInID bool // the broker drops the connection while the first id-bearing API call is fetching its packet id (after its connected check)
 }
 
 func (s scenario) String() string {
@@ -44,6 +45,9 @@ func (s scenario) String() string {
 	}
 	if s.SessF != nil {
 		f = fmt.Sprintf("session:%s#%d", s.SessF.Method, s.SessF.K)
+	}
+	if s.LossInID {
+		f += " | connection lost inside the first NextID"
 	}
 	return fmt.Sprintf("connack=%s acks=%s api=%v terminal=%s workers=%d resume=%t slowlog=%t | %s", s.Connack, s.Acks, s.API, s.Terminal, s.Workers, s.Resume, s.SlowLog, f)
 }
@@ -206,6 +210,33 @@ func run(r *h.Run, sc scenario) result {
 	}
 	cfg := ch.Config(srv, "c09-client", false)
 	cfg.ValidateSubs = true
+	if sc.LossInID {
+		// buffered sends: the packet of the racing call is accepted by the
+		// connection object although the connection is gone
+		cfg.MaxWriteDelay = 20 * time.Millisecond
+		sess.OnNextID = func(n int) {
+			if n != 1 {
+				return
+			}
+			if cn := srv.WaitConn(1, time.Second); cn != nil {
+				cn.Peer.Close()
+				// wait (bounded) until the client has noticed the loss and torn down
+				for w := 0; w < 4000; w++ {
+					seen := false
+					for _, e := range srv.Log.Events() {
+						if e.Who == "cli#1" && (e.Kind == "close" || e.Kind == "crecv-error") {
+							seen = true
+						}
+					}
+					if seen {
+						break
+					}
+					time.Sleep(250 * time.Microsecond)
+				}
+				time.Sleep(time.Millisecond) // shaping: let the teardown finish
+			}
+		}
+	}
 	var futs []*fut
 	var fmu sync.Mutex
 	checkAccessors := func(when string, f interface{}) {
@@ -707,7 +738,7 @@ func apiSeqs(depth int) [][]string {
 
 func TestCheck(t *testing.T) {
 	r := h.New("C09", "fault_enumeration")
-	r.Rule("client.Client against a scripted in-memory broker: CONNACK {ok, refused, absent, wrong first packet} x acknowledgement behaviour {normal, held and released in reverse order, withheld, spurious ids first, wrong kind for the live id first, SUBACK failure code} x all API sequences of length <= 3 over {publish q0/q1/q2, subscribe, unsubscribe} (plus sampled length 4, sequential or from 2-8 goroutines) x terminal event {Close, Disconnect(), Disconnect(50ms), Disconnect(1ns) with acknowledgements outstanding, broker drops the connection then Close} x optional resume with the same session; for a deterministic subset every single connection-fault position (k-th client-side Send/Receive, before/after, incl. the CONNECT itself) and every session-method failure position is enumerated. Oracles over the recorded event log: SavePacket before first send, future success only after the scripted broker logged the matching acknowledgement, session content at rest, retransmission with DUP on resume, every future resolved after the terminal call (and after a broker-side close), terminal call returns (goroutine-profile confirmed), accessors never panic. Non-trivial = runs that create >= 1 future and end the connection with it unresolved, or complete >= 1 QoS>0 flow; distinct by scenario")
+	r.Rule("client.Client against a scripted in-memory broker: CONNACK {ok, refused, absent, wrong first packet} x acknowledgement behaviour {normal, held and released in reverse order, withheld, spurious ids first, wrong kind for the live id first, SUBACK failure code} x all API sequences of length <= 3 over {publish q0/q1/q2, subscribe, unsubscribe} (plus sampled length 4, sequential or from 2-8 goroutines) x terminal event {Close, Disconnect(), Disconnect(50ms), Disconnect(1ns) with acknowledgements outstanding, broker drops the connection then Close} x optional resume with the same session; API calls that passed their connected check at the moment the connection is lost (the loss is placed inside the session's NextID); for a deterministic subset every single connection-fault position (k-th client-side Send/Receive, before/after, incl. the CONNECT itself) and every session-method failure position is enumerated. Oracles over the recorded event log: SavePacket before first send, future success only after the scripted broker logged the matching acknowledgement, session content at rest, retransmission with DUP on resume, every future resolved after the terminal call (and after a broker-side close), terminal call returns (goroutine-profile confirmed), accessors never panic. Non-trivial = runs that create >= 1 future and end the connection with it unresolved, or complete >= 1 QoS>0 flow; distinct by scenario")
 	r.Assume("packet ids are recovered from the client's own send log by unique payload / topic tags")
 	var base []scenario
 	terms := []string{"close", "disconnect0", "disconnectT", "broker-drop"}
@@ -733,6 +764,12 @@ func TestCheck(t *testing.T) {
 			continue
 		}
 		base = append(base, scenario{Connack: "ok", Acks: "normal", API: api, Terminal: terms[k%4], SlowLog: true, Workers: 1 + k%3})
+	}
+	// an API call that passed its connected check when the connection is lost
+	for _, api := range [][]string{{"pub1"}, {"pub2"}, {"sub"}, {"unsub"}, {"pub0", "pub1", "sub"}} {
+		for _, term := range []string{"close", "disconnect0", "disconnectT"} {
+			base = append(base, scenario{Connack: "ok", Acks: "normal", API: api, Terminal: term, LossInID: true})
+		}
 	}
 	// Disconnect with a timeout that is already over, with acknowledgements outstanding
 	for _, api := range [][]string{{"pub1"}, {"pub2"}, {"sub"}, {"pub1", "sub"}, {"pub2", "pub1", "unsub"}} {
